@@ -26,7 +26,7 @@ def _gen(rnd):
         R += rnd.choice(["ATG", "GTG", "TTG", "TAA", "TGA", "CAT", "TTA", "GCC", "AAA", "CTG", "ATT", "C", "AG"])
     R = R[:L]
     par = Parent(id="chrG", sequence=Sequence(R, Alphabet.NT_EXTENDED_GAPPED, id="chrG", type=SequenceType.CHROMOSOME))
-    model, genes, fcs = [], [], []
+    model, genes, fcs, twins = [], [], [], []
     pos = 5
     tagnums = rnd.sample([2, 9, 10, 11, 19, 100, 101, 20], 5)
     for gi in range(rnd.randrange(1, 5)):
@@ -51,19 +51,29 @@ def _gen(rnd):
             btype = rnd.choice(["protein_coding", "protein_coding", "protein_coding", "ncRNA", "tRNA", "rRNA", "misc_RNA"])
             txs, tm = [], []
             nt = 1  # GenBank has no identifiers linking an mRNA to its CDS: one isoform per gene (as the quantifier says)
+            # ... except isoforms that are written as the SAME records up to their identifiers (two proteins annotated on
+            # one CDS): judged in the prokaryotic flavour, where a coding gene is its CDS records
+            if btype == "protein_coding" and rnd.random() < 0.15:
+                nt = 2
+                twins.append(gi)
+            keep = None
             for ti in range(nt):
-                tb = blocks if ti == 0 else blocks[:max(1, len(blocks) - 1)]
+                tb = blocks
                 n = sum(b[1] - b[0] for b in tb)
                 cds = frames = None
                 pid = ""
                 if btype == "protein_coding":
-                    ca = rnd.randrange(0, max(1, n - 6))
-                    cb = rnd.randrange(ca + 3, n + 1)
-                    cds = cds_blocks(tb, st, ca, cb)
-                    f0 = rnd.choice([0, 0, 0, 1, 2])
-                    if cds[0][1] - cds[0][0] <= f0 or cds[-1][1] - cds[-1][0] <= f0:
-                        f0 = 0
-                    frames = list(_consistent_frames(cds, st, f0))
+                    if keep is None:
+                        ca = rnd.randrange(0, max(1, n - 6))
+                        cb = rnd.randrange(ca + 3, n + 1)
+                        cds = cds_blocks(tb, st, ca, cb)
+                        f0 = rnd.choice([0, 0, 0, 1, 2])
+                        if cds[0][1] - cds[0][0] <= f0 or cds[-1][1] - cds[-1][0] <= f0:
+                            f0 = 0
+                        frames = list(_consistent_frames(cds, st, f0))
+                        keep = (cds, frames)
+                    else:
+                        cds, frames = keep
                     pid = "prot_%d_%d" % (gi, ti)
                 txs.append(mk_tx(tb, st, cds, None, frames=frames, parent=par, transcript_id="tx_%d_%d" % (gi, ti),
                                  transcript_type=Biotype[btype], protein_id=pid or None,
@@ -78,7 +88,7 @@ def _gen(rnd):
     coll = AnnotationCollection(feature_collections=fcs, genes=genes, sequence_name="chrG",
                                 parent_or_seq_chunk_parent=par)
     model.sort(key=lambda m: m[1])
-    return coll, model, R
+    return coll, model, R, bool(twins)
 
 
 def _loc_blocks(loc):
@@ -120,11 +130,11 @@ def _events(args):
         b = _gen(rnd)
         if not b:
             continue
-        coll, model, R = b
+        coll, model, R, has_twins = b
         # what must come back is fixed before ANY export runs (an export must not be able to alter its source and the
         # expectation with it)
         src_by_flavour = {fl: _project(coll, fl) for fl in ("PROKARYOTIC", "EUKARYOTIC")}
-        for flavour in ("PROKARYOTIC", "EUKARYOTIC"):
+        for flavour in (("PROKARYOTIC",) if has_twins else ("PROKARYOTIC", "EUKARYOTIC")):
             buf = io.StringIO()
             src = src_by_flavour[flavour]
             try:
